@@ -39,12 +39,12 @@ type vCase struct {
 }
 
 type vState struct {
-	Panic  string    `json:"panic,omitempty"`
-	Top    []vDesc   `json:"top"`
-	Child  []vDesc   `json:"child"`
-	Get    []*vDesc  `json:"get"`  // per query, null = error
-	GetAnn []*vDesc  `json:"getann"`
-	CopyOK bool      `json:"copy_ok"`
+	Panic  string   `json:"panic,omitempty"`
+	Top    []vDesc  `json:"top"`
+	Child  []vDesc  `json:"child"`
+	Get    []*vDesc `json:"get"` // per query, null = error
+	GetAnn []*vDesc `json:"getann"`
+	CopyOK bool     `json:"copy_ok"`
 }
 
 type vOut struct {
